@@ -1,4 +1,5 @@
 #!/bin/bash
+REPO=${REPO:-/repo}  # the tree the change is applied to (default /repo; a scratch worktree of the same commit while /repo is busy)
 # seedcheck.sh <property> <seed source dir> <seed name>
 #   1. confirms the seeded change in a scratch worktree (build, existing tests pass, demo fails with / passes without)
 #   2. applies it to /repo, runs the property's check (quick tier), undoes it
@@ -30,11 +31,11 @@ VR=${VERIF_ROOT:-/verif}
 cd $VR
 git -C /repo worktree remove --force $wt
 # run the check on /repo with the change applied
-git -C /repo apply $dst/patch.diff
+git -C $REPO apply $dst/patch.diff
 t0=$(date +%s)
-out=$(bin/vcheck -prop $prop -tier $tier 2>&1); rc_check=$?
+out=$(bin/vcheck -repo $REPO -prop $prop -tier $tier 2>&1); rc_check=$?
 t1=$(date +%s)
-git -C /repo checkout -- .
+git -C $REPO checkout -- .
 verdict=$(echo "$out" | grep -E '^(VIOLATION|INCONCLUSIVE|PASS)' | head -4)
 labels=$(echo "$out" | grep -E '^  harness=' | sed 's/  harness=\([^ ]*\) label=\([^ ]*\).*/\1\/\2/' | head -6 | tr '\n' ' ')
 python3 - "$prop" "$name" "$pkgdir" "$rc_apply" "$rc_build" "$rc_suite" "$rc_without" "$rc_with" "$rc_check" "$((t1-t0))" "$labels" "$tier" <<'PY'
@@ -46,7 +47,7 @@ meta={"property":prop,"name":name,"breaks":readme.strip().split('\n')[0:12],
  "confirmed":{"patch_applies":rc_apply=="0","builds":rc_build=="0","existing_suite_passes_with_change":rc_suite=="0",
               "demo_passes_without_change":rc_without=="0","demo_fails_with_change":rc_with!="0"},
  "what_i_ran":[f"scratch worktree of /repo HEAD: demo in {pkgdir} without the change; git apply patch.diff; go build; go test ./cmd/rdpgw/... ./cmd/auth/ntlm/ ./cmd/auth/database/; demo again",
-               f"git -C /repo apply patch.diff; bin/vcheck -prop {prop} -tier {tier}; git -C /repo checkout -- ."],
+               f"git -C /repo apply patch.diff; bin/vcheck -prop {prop} -tier {tier}; git -C $REPO checkout -- ."],
  "check":{"exit_code":int(rc_check),"seconds":int(secs),"caught":rc_check=="1","inconclusive":rc_check=="3","labels":labels.split()}}
 json.dump(meta,open(dst+'/meta.json','w'),indent=1)
 print(name,"confirmed=",all(meta["confirmed"].values()),meta["confirmed"] if not all(meta["confirmed"].values()) else "","check_exit=",rc_check,"labels=",labels)
